@@ -12,6 +12,7 @@ pub mod pcop;
 #[path = "../hooks.rs"]
 pub mod hooks;
 pub mod regop;
+pub mod threads;
 pub mod rx;
 pub mod wild;
 pub mod inset;
@@ -33,6 +34,7 @@ pub fn run(stream: &str, cfg: Cfg, out: &mut Out) -> bool {
         "wild" => wild::run(cfg, out),
         "rx" => rx::run(cfg, out),
         "nest" => nest::run(cfg, out),
+        "threads" => threads::run(cfg, out),
         "fuzz" => fuzz::run(cfg, out),
         "uses" => misc::run_uses(cfg, out),
         "json" => misc::run_json(cfg, out),
@@ -71,6 +73,7 @@ pub fn replay(stream: &str, op: &str) -> Option<String> {
         "capi" => capi::replay(op),
         "pcop-child" => pcop::child(op),
         "fuzz-child" => fuzz::child(op),
+        "threads-child" => threads::child(op),
         "regop" => regop::replay(op),
         "ctxop" => ctxop::replay(op),
         "contains" => contains::replay(op),
